@@ -7,6 +7,7 @@ from .common import where, check_arm_purity
 from . import constructions as K
 from . import guardrules as R
 from . import flow as F
+from . import spec as SP
 
 EXPLANATION = (
     "Decides, for all inputs, the accumulation glue: MultiSignature::try_from refuses fewer than two inputs (length guard dominates "
@@ -36,8 +37,8 @@ def run(ctx):
         cov = [R.covers_all(s, "sigs") for _, s in R.loop_sources(f)]
         adds0 = [s for s in ev.sites.values() if s.callee[0] == "Add::add" and any(x.op == "index" and B._const_int(x.a[1]) == 0 for x in subterms(s.args[1]))]
         ctx.ob("E4.accumulate", fk + "/covers-all", cov == ["all"] or (cov == ["tail1"] and len(adds0) >= 1), "loop iterates %s and sigs[0] is added %d time(s) on the exits" % (cov, len(adds0)), where=where(f))
-        n, _ = check_arm_purity(ctx, "E2-A", P, [f])
-        ctx.floor("E2-A", "variant switches in MultiSignature::try_from", n, 1)
+        check_arm_purity(ctx, "E2-A", P, [f])
+        SP.check_variant_preserved(ctx, "E2.variant", P, f, "MultiSignature", min_variants=2)
         allow_skip = {(fk, "skip"): "skip(1): element 0 is added separately on the exits"} if (cov == ["tail1"] and len(adds0) >= 1) else {}
         F.check_no_dropping_adapters(ctx, "E7.adapters", P, [fk], allow=allow_skip)
         # message augmentation refusal
@@ -113,8 +114,9 @@ def run(ctx):
     # verify wrapper
     v = ctx.need_fn("E2-A", "MultiSignature<C>::verify")
     if v is not None:
-        n, _ = check_arm_purity(ctx, "E2-A", P, [v])
-        ctx.floor("E2-A", "dispatch in MultiSignature::verify", n, 1)
+        check_arm_purity(ctx, "E2-A", P, [v])
+        n = SP.check_trait_by_scheme(ctx, "E2.dispatch", P, v, ("verify", "multi_sig_verify", "core_verify"))
+        ctx.floor("E2.dispatch", "schemes of MultiSignature::verify reaching their verifier", n, 2)
         ev = evaluate(v)
         for bb, s in sorted(ev.sites.items()):
             c = s.raw.get("callee") or {}
